@@ -36,6 +36,11 @@ CHECKS = {
          "Histories with valid / invalid / wrong-key / duplicate / replayed signatures and confirmations, signing before and after estimate election, fee attachment, key re-registration and hand-over, aliased registrations; after every block every stored signature and batch confirmation must recover (go-ethereum ecrecover over the item's CURRENT signing bytes) to a key its validator had registered for that chain when the monitor saw it sign, no validator and no key twice per item, and nothing signed over an earlier version of the bytes may remain. Held = held at every boundary of those histories.",
          "Signing bytes taken from the item's own hashing code (their binding is C05); relayer re-assignment is not generated because no code path of the tree under test reaches it.",
          "DESIGN.md §2 C06"),
+ "C07": ("exploration", "chain+world",
+         "differential oracle: independent compass-ABI encoding + receipt + freshness verdict vs what the real attestation flow of the real app accepts and which success effects appear, over corrupted / replayed / late-signature proofs",
+         "Histories of the real app with all five action types produced by their real flows (initial compass upload, governance upgrade and hand-over, valset updates, jobs, user contracts); every round ends with >= 2/3 of shares attesting one proof drawn from faithful variants (signature prefixes, late signatures, older valsets), 36 single/multi-field corruptions, bad or missing receipts and replays of used transactions. After every block the monitor's own verdict (call data byte-equal to an independent encoding for some signature prefix, receipt status 1, tx not used before) is compared with acceptance (metrix relay record / module log) and with the success effects (snapshot live, compass recorded/activated, user deployment recorded), incl. at-most-once. Held = held on those rounds.",
+         "Only-if direction (a valid proof that is rejected is counted, not flagged); the empty signature prefix counts as a prefix; known finding: empty-valset proofs (see known_findings.txt).",
+         "DESIGN.md §2 C07"),
  "C08": ("exploration", "chain+world",
          "twin executions of the same seeded history in separate processes under environment / restart / read-only-traffic / database variations with per-block digest comparison + 25-fold repeated evaluation of pure decisions on forked states",
          "Each omnibus history is executed by 4-6 twin processes that differ only in what must not matter (every env variable the sources read - found by scanning at check time - set vs unset, TZ/GOMAXPROCS/GOGC/LANG, restarts at block boundaries, read-only traffic incl. CheckTx/Simulate between blocks, memdb vs goleveldb); per block the digests of raw txs, tx results (code, data, gas, events), block events and app hash are compared. In the base twin relayer selection, snapshot construction, attestation processing and the end-blockers are evaluated 25x on forks of the same state and write sets and return values compared. Held = no divergence on those executions.",
